@@ -181,6 +181,15 @@ def Str.advance : List Nat → Nat → Nat → Option (Nat × List Nat)
   | [], _ + 1, _ => none
   | x :: xs, k + 1, _ => Str.advance xs k x
 
+/-- the loop `let mut cur = init; for _ in a..b { let idx = it.next()?; cur = idx; }` as the translator
+    reads it: `b - a` steps (none when `a ≥ b`, as a Rust range), `None` when the iterator runs dry -/
+def Str.advanceR {ι κ} [ToOff ι] [ToOff κ] (it : List Nat) (a : ι) (b : κ) (init : Nat) : Option (Nat × List Nat) :=
+  Str.advance it (ToOff.toOff b - ToOff.toOff a) init
+/-- `s.match_indices('\n').map(|(byte, _)| byte + 1)`: the offsets just after each newline -/
+def Str.after_newlines (s : Str) : List Nat := Str.afterNewlinesFrom 0 s.chars
+/-- `iter.chain(end)` with `end : Option<usize>` -/
+def Str.chain_opt (it : List Nat) (e : Option Nat) : List Nat := it ++ e.toList
+
 /-- `StringLines::slice` (src/value/string.rs), hand-modelled: its two `for`
     loops advance one iterator over the offsets just after each newline
     (chained with the string's length when it does not end in a newline).
